@@ -1247,6 +1247,29 @@ impl Scenario for E2eSim {
                     }
                     if matches!(&rec.outcome, ROutcome::Err(k, _) if k == "timeout") {
                         out.count("probe.request_timed_out");
+                        // "at expiry the inner work is dropped": hyper closes an HTTP/1 connection whose
+                        // exchange in progress is abandoned, so if the server had not even produced the
+                        // response when the deadline fired, that connection can never carry a later
+                        // request - unless the exchange was kept running behind the caller's back
+                        if !p.upgrade {
+                            if let Some(last) = res.log.seen.iter().filter(|s| s.id == p.id).max_by_key(|s| (s.hop, s.start_ms)) {
+                                let in_flight = last.version != http::Version::HTTP_2 && last.responded_ms.map(|r| r > at + pumped + 1).unwrap_or(true);
+                                if in_flight {
+                                    out.count("probe.timeout_during_http1_exchange");
+                                    if let Some(next) = res.log.seen.iter().find(|s2| s2.conn == last.conn && s2.origin == last.origin && s2.id != p.id && s2.start_ms >= at) {
+                                        out.violations.push(Violation::new(
+                                            "C19",
+                                            "timed_out_exchange_ran_on",
+                                            json!({"kind": "e2e"}),
+                                            format!(
+                                                "request {} timed out at {} ms while its HTTP/1 exchange on connection {} was in progress (handler answered: {:?}); the connection later carried request {} (at {} ms): the abandoned exchange was completed instead of dropped",
+                                                p.id, at, last.conn, last.responded_ms, next.id, next.start_ms
+                                            ),
+                                        ));
+                                    }
+                                }
+                            }
+                        }
                         if at < rec.start_ms + t {
                             out.violations.push(Violation::new("C19", "timeout_too_early", json!({"kind": "e2e"}), format!("request {} timed out at {} ms, issued at {} ms with a {} ms timeout", p.id, at, rec.start_ms, t)));
                         }
